@@ -22,22 +22,37 @@ CLAIMED = {
    category="exploration", design_ref="DESIGN.md §4 C13",
    technique="deterministic simulation of copy/assign/swap/alias interleavings over an object pool with bystander monitoring",
    text="Seeded histories with copies, assignments, swaps, self-assignment, self-swap and aliased operands; objects not involved in an operation must keep their exact dump text, const operands their value, and x.op(x) must equal copy.op(copy). Currently instantiated for C and NNC polyhedra.",
-   note="Only the polyhedra instantiation is registered so far (shapes, boxes, grids, powersets, products and the syntactic classes are being triaged)."),
+   note="Instantiated for C/NNC polyhedra, rational BD shapes, octagons, boxes and grids; powersets, products and the syntactic classes (Linear_Expression, systems) are not registered yet."),
  "C14": dict(
    category="fault_enumeration", design_ref="DESIGN.md §4 C14, §3.3-3.5 (M-fault), §5.1",
    technique="fault injection in forked branches of a deterministic simulation: k-th allocation (operator new and GMP) fails, abandonment at the k-th maybe_abandon() checkpoint, abandon flag at an allocation instant, weight threshold; LeakSanitizer reachability as leak oracle",
    text="For operation instances reached by seeded histories, the operation is re-executed from its exact pre-state with one injected fault per branch; judged: exception type, global state (rounding mode, watcher hook), bystanders unchanged, every involved object can be destroyed / assigned / swapped and then behaves like a pristine object with that value, and no block allocated during the call is unreachable after everything is destroyed. Rejected (ill-formed) calls must throw std::invalid_argument / std::length_error and leave values unchanged. Thorough tier enumerates fault positions over the whole range of the operation instance.",
-   note="Interpretation of 'can still be used' is the basic guarantee (DESIGN.md §5.1). Currently instantiated for C and NNC polyhedra. Coefficient overflow is not injected."),
+   note="Interpretation of 'can still be used' is the basic guarantee (DESIGN.md §5.1). Instantiated for C/NNC polyhedra, rational BD shapes, octagons, boxes and grids. Coefficient overflow is not injected. Two leaks inside gmpxx (big-number layer) are listed as known findings."),
  "C15": dict(
    category="exploration", design_ref="DESIGN.md §4 C15",
    technique="deterministic simulation with crash/restart semantics: dump at arbitrary history points, load into arbitrary receivers, lock-step continuation of original and reloaded replica",
    text="At random points of seeded histories an object is dumped and the text loaded into a fresh object or into a copy of any live object (any lazy state); load must succeed, give OK(), an identical re-dump and an equal value, and the replica must answer all later operations like the original.",
-   note="Currently instantiated for C and NNC polyhedra; streams are std::stringstream (chunked streambuf not built yet)."),
+   note="Instantiated for C/NNC polyhedra, rational BD shapes, octagons, boxes, grids and MIP_Problem; streams are std::stringstream (chunked streambuf not built yet)."),
  "C16": dict(
    category="exploration", design_ref="DESIGN.md §4 C16",
    technique="deterministic simulation of operation histories against a reference model (plain vector) with lock-step sparse/dense replicas",
    text="Seeded histories over Sparse_Row / Dense_Row / vector triples and DENSE / SPARSE Linear_Expression pairs: after every step all replicas agree index by index, iteration is strictly increasing and skips no non-zero entry, returned iterators point at the requested index, OK() holds, and queries agree across representations. No clock, schedule or fault is involved; the simulator chooses histories and sizes across the tree's rebalancing thresholds.",
    note="Constraint/Generator/Congruence systems built in both representations are not covered yet; the ASan batch makes out-of-bounds accesses inside the tree visible."),
+ "C04": dict(
+   category="exploration", design_ref="DESIGN.md §4 C04",
+   technique="deterministic simulation of operation histories over rational BD shapes, octagons and boxes; refinement against an eager twin plus pointwise evaluation of each operator's definition",
+   text="Seeded histories drive the closed/non-closed/reduced matrix states; after every operation OK() must hold, const operands keep their set, the twin (re-built from the object's own constraints) must give equal results and answers, and exact operators (adding native constraints, intersection, concatenation, embedding) must produce exactly the pointwise-defined set on the probe points while the others must not lose points; definite predicate answers are refuted by member points.",
+   note="Best-ness of upper bound / difference / constructors (smallest element) is judged only through the twin, not against LP suprema along the template directions (not built)."),
+ "C05": dict(
+   category="exploration", design_ref="DESIGN.md §4 C05",
+   technique="deterministic simulation of operation histories over grids; refinement against an eager twin plus pointwise evaluation of each operator's definition",
+   text="Seeded histories over grids with non-unit divisors, parameters and lines; after every operation OK(), const-ness, twin equality of values and of every query answer (twin alternately built from minimized congruences and from minimized generators, so that the two descriptions are cross-checked through the library's own conversion), and pointwise definition checks on probe points.",
+   note="The agreement of the two descriptions is established through twins built from each description; an independent HNF lattice-membership oracle is not built."),
+ "C06": dict(
+   category="exploration", design_ref="DESIGN.md §4 C06",
+   technique="deterministic simulation of solve/mutator interleavings against a reference model: fresh-problem twin, exact rational simplex, brute-force enumeration of boxed integer variables",
+   text="Seeded histories interleave solve / is_satisfiable / point queries with incremental mutators under the three pricing rules; every judged solve must agree with a fresh problem built from the object's own getters (status and optimum, all pricings), returned points must satisfy every constraint and integrality, the optimum must equal the objective at the witness, and status/optimum must equal an independent exact simplex (plus enumeration of the integer box).",
+   note="Integer variables are always boxed; abandoned solves (C14) are not part of this check."),
 }
 
 NOT_APPLICABLE = {
